@@ -286,9 +286,98 @@ pub fn run(tier: &str, seed: u64) -> Stats {
             enumerate_failures(&mut st, "update", "wide/add=H::T(141 new rights)", &mb2, None, &|cc, m, _| cc.update_msk(m).map(|_| ()));
         }
     }
+    structure_edit_errors(&mut st);
     let mut seen = std::collections::BTreeSet::new();
     st.findings.retain(|f| seen.insert(f.signature.clone()));
     st
+}
+
+/// Natural failures of the structure-editing calls on the master key's access structure, among
+/// them the one no API history reaches: the attribute id counter is exhausted (a master key read
+/// from bytes whose counter is at its maximum). An `Err` must leave the master key as it was.
+#[cfg(feature = "hooks")]
+fn structure_edit_errors(st: &mut Stats) {
+    let cc = Covercrypt::default();
+    let Some((mut msk, _)) = call(|| cc.setup()).ok() else { return };
+    let _ = msk.access_structure.add_anarchy("D".into());
+    let _ = msk.access_structure.add_hierarchy("H".into());
+    for (d, a, after) in [("D", "A", None), ("D", "B", None), ("H", "L", None), ("H", "M", Some("L")), ("H", "T", Some("M"))] {
+        let _ = msk.access_structure.add_attribute(QualifiedAttribute::new(d, a), hint(a == "T"), after);
+    }
+    if call(|| cc.update_msk(&mut msk)).ok().is_none() {
+        return;
+    }
+    let Some(mb) = ser(&msk).ok() else { return };
+    let Ok(w) = WMsk::parse(&mb) else { return };
+    let mut states: Vec<(&str, Vec<u8>)> = vec![("regular", mb.clone())];
+    if w.structure.next_id.is_some() {
+        let mut m = w.clone();
+        m.structure.next_id = Some(u64::MAX);
+        states.push(("id-counter-exhausted", m.write()));
+        let mut m = w.clone();
+        m.structure.next_id = Some(u64::MAX - 1);
+        states.push(("id-counter-one-left", m.write()));
+    }
+    type Edit = (&'static str, Box<dyn Fn(&mut MasterSecretKey) -> Result<(), cosmian_cover_crypt::Error>>);
+    let q = QualifiedAttribute::new;
+    let edits: Vec<Edit> = vec![
+        ("add_attribute(anarchy,new)", Box::new(move |m| m.access_structure.add_attribute(q("D", "New"), hint(false), None))),
+        ("add_attribute(hierarchy,new,bottom)", Box::new(move |m| m.access_structure.add_attribute(q("H", "New"), hint(true), None))),
+        ("add_attribute(hierarchy,new,after)", Box::new(move |m| m.access_structure.add_attribute(q("H", "New"), hint(false), Some("L")))),
+        ("add_attribute(hierarchy,new,after-top)", Box::new(move |m| m.access_structure.add_attribute(q("H", "New2"), hint(false), Some("T")))),
+        ("add_attribute(duplicate)", Box::new(move |m| m.access_structure.add_attribute(q("D", "A"), hint(false), None))),
+        ("add_attribute(unknown-dimension)", Box::new(move |m| m.access_structure.add_attribute(q("Nope", "A"), hint(false), None))),
+        ("add_attribute(unknown-after)", Box::new(move |m| m.access_structure.add_attribute(q("H", "New3"), hint(false), Some("Ghost")))),
+        ("add_attribute(after-in-anarchy)", Box::new(move |m| m.access_structure.add_attribute(q("D", "New4"), hint(false), Some("A")))),
+        ("del_attribute(unknown)", Box::new(move |m| m.access_structure.del_attribute(&q("D", "Ghost")))),
+        ("del_attribute(unknown-dimension)", Box::new(move |m| m.access_structure.del_attribute(&q("Nope", "A")))),
+        ("disable_attribute(unknown)", Box::new(move |m| m.access_structure.disable_attribute(&q("H", "Ghost")))),
+        ("rename_attribute(to-existing)", Box::new(move |m| m.access_structure.rename_attribute(&q("D", "A"), "B".to_string()))),
+        ("rename_attribute(unknown)", Box::new(move |m| m.access_structure.rename_attribute(&q("D", "Ghost"), "X".to_string()))),
+        ("add_anarchy(existing)", Box::new(move |m| m.access_structure.add_anarchy("D".into()))),
+        ("add_hierarchy(existing)", Box::new(move |m| m.access_structure.add_hierarchy("D".into()))),
+        ("del_dimension(unknown)", Box::new(move |m| m.access_structure.del_dimension("Nope"))),
+    ];
+    for (state, bytes) in &states {
+        for (name, edit) in &edits {
+            let Some(mut m) = de::<MasterSecretKey>(bytes).ok() else {
+                st.bump("structure_edit_state_not_loadable");
+                break;
+            };
+            let before = canon(&m);
+            // twice: a retry after a failure must not find a half-applied first attempt
+            for attempt in 0..2 {
+                let out = call(|| edit(&mut m));
+                st.bump("structure_edit_calls");
+                match out {
+                    Out::Err(_) => {
+                        st.bump("natural_error_structure_edit");
+                        st.shapes.insert(fnv(format!("structure-edit|{state}|{name}").as_bytes()));
+                        if canon(&m) != before {
+                            st.findings.push(Finding {
+                                prop: "C10".into(),
+                                signature: format!("C10:msk-changed-by-failed-call:{}:{state}", name.split('(').next().unwrap_or(name)),
+                                detail: format!("{name} on a master key in state '{state}' returned an error (attempt {attempt}) and changed the master key"),
+                                replay: json!({"monitor": "c10fp", "op": name, "state": state}),
+                            });
+                            break;
+                        }
+                        st.bump("failed_call_state_unchanged");
+                    }
+                    Out::Panic(p) => {
+                        st.findings.push(Finding {
+                            prop: "C09".into(),
+                            signature: format!("C09:panic:{}", name.split('(').next().unwrap_or(name)),
+                            detail: format!("{name} in state '{state}' panicked: {p}"),
+                            replay: json!({"monitor": "c10fp", "op": name, "state": state}),
+                        });
+                        break;
+                    }
+                    Out::Ok(_) => break,
+                }
+            }
+        }
+    }
 }
 
 #[cfg(not(feature = "hooks"))]
